@@ -64,6 +64,7 @@ def obligations(thorough):
         add(f'eqhash_EstimationStep[base={b},tool_options=2]', 'eqhash_EstimationStep',
             dict(base, VH_NOPT=2, VH_SHAPE='0,2', VH_BASE=b))               # finding F2 isolated here
     add('eqhash_SimulationStep', 'eqhash_SimulationStep', small)
+    add('eqhash_frozenmapping_replace', 'eqhash_frozenmapping_replace', small)
     # immutability / replace
     for c in ('Parameter', 'Parameters', 'ColumnInfo', 'DataInfo', 'VariabilityLevel', 'VariabilityHierarchy',
               'EstimationStep', 'SimulationStep', 'ExecutionSteps'):
@@ -97,7 +98,7 @@ def main():
         'DataInfo.__eq__', 'DataInfo.__hash__', 'VariabilityLevel.create/replace/__eq__/__hash__',
         'VariabilityHierarchy.create/replace/__eq__/__hash__', 'EstimationStep.create/replace/__eq__/__hash__',
         'ExecutionStep.__eq__/__hash__', 'SimulationStep.create/replace/__eq__/__hash__',
-        'ExecutionSteps.create/replace/__eq__/__hash__', 'frozenmapping.__init__/__hash__/__eq__',
+        'ExecutionSteps.create/replace/__eq__/__hash__', 'frozenmapping.__init__/__hash__/__eq__/replace',
         'Immutable.__copy__/__deepcopy__', 'internals.immutable.cache_method']
     run.bounds = dict(
         floats='all IEEE-754 binary64 values incl. NaN, +-inf, -0.0 (z3 floating-point theory) for Parameter '
